@@ -683,14 +683,34 @@ mod expression_parser {
     additional_preceding_comments: Vec<Comment>,
   ) -> expr::E<()> {
     let mut expr = parse_expression(parser);
-    let common = expr.common_mut();
+    add_preceding_comments(parser, &mut expr, additional_preceding_comments);
+    expr
+  }
+
+  /// The node that owns the first token of the expression: comments written before an expression
+  /// belong to it, exactly as if they had been read right before that token.
+  fn leftmost_common_mut(e: &mut expr::E<()>) -> &mut expr::ExpressionCommon<()> {
+    match e {
+      expr::E::FieldAccess(e) => leftmost_common_mut(&mut e.object),
+      expr::E::MethodAccess(e) => leftmost_common_mut(&mut e.object),
+      expr::E::Call(e) => leftmost_common_mut(&mut e.callee),
+      expr::E::Binary(e) => leftmost_common_mut(&mut e.e1),
+      _ => e.common_mut(),
+    }
+  }
+
+  fn add_preceding_comments(
+    parser: &mut super::SourceParser,
+    expr: &mut expr::E<()>,
+    additional_preceding_comments: Vec<Comment>,
+  ) {
+    let common = leftmost_common_mut(expr);
     common.associated_comments =
       super::utils::mod_associated_comments_with_additional_preceding_comments(
         parser,
         common.associated_comments,
         additional_preceding_comments,
       );
-    expr
   }
 
   fn parse_match(parser: &mut super::SourceParser) -> expr::E<()> {
@@ -1248,7 +1268,7 @@ mod expression_parser {
                     let id_expr = expr::E::LocalId(
                       expr::ExpressionCommon {
                         loc: id.loc,
-                        associated_comments: NO_COMMENT_REFERENCE,
+                        associated_comments: id.associated_comments,
                         type_: (),
                       },
                       id,
@@ -1260,7 +1280,7 @@ mod expression_parser {
                         expr::E::LocalId(
                           expr::ExpressionCommon {
                             loc: name.loc,
-                            associated_comments: NO_COMMENT_REFERENCE,
+                            associated_comments: name.associated_comments,
                             type_: (),
                           },
                           name,
@@ -1284,14 +1304,15 @@ mod expression_parser {
                   break;
                 }
                 // Non-id expression in tuple: (a, b, 42, ...)
-                let first_remaining = parse_expression(parser);
+                let first_remaining =
+                  parse_expression_with_additional_preceding_comments(parser, id_comments);
                 let tuple_elements: Vec<expr::E<()>> = parameters_or_tuple_elements_cover
                   .into_iter()
                   .map(|name| {
                     expr::E::LocalId(
                       expr::ExpressionCommon {
                         loc: name.loc,
-                        associated_comments: NO_COMMENT_REFERENCE,
+                        associated_comments: name.associated_comments,
                         type_: (),
                       },
                       name,
@@ -1342,7 +1363,7 @@ mod expression_parser {
                   expr::E::LocalId(
                     expr::ExpressionCommon {
                       loc: name.loc,
-                      associated_comments: NO_COMMENT_REFERENCE,
+                      associated_comments: name.associated_comments,
                       type_: (),
                     },
                     name,
@@ -1404,14 +1425,18 @@ mod expression_parser {
                 body: Box::new(body),
               });
             } else {
-              return expr::E::LocalId(
+              let mut e = expr::E::LocalId(
                 expr::ExpressionCommon {
                   loc: start_id.loc,
-                  associated_comments: NO_COMMENT_REFERENCE,
+                  associated_comments: start_id.associated_comments,
                   type_: (),
                 },
                 start_id,
               );
+              let mut all_comments = associated_comments;
+              all_comments.append(&mut ending_comments);
+              add_preceding_comments(parser, &mut e, all_comments);
+              return e;
             }
           }
           // (id<op>... — parenthesized expression or tuple starting with id
@@ -1419,7 +1444,7 @@ mod expression_parser {
             let id_expr = expr::E::LocalId(
               expr::ExpressionCommon {
                 loc: start_id.loc,
-                associated_comments: NO_COMMENT_REFERENCE,
+                associated_comments: start_id.associated_comments,
                 type_: (),
               },
               start_id,
@@ -1434,7 +1459,11 @@ mod expression_parser {
                 expressions,
               );
             } else {
-              let _ = parser.assert_and_consume_operator(TokenOp::RightParenthesis);
+              let (_, mut comments) = parser.assert_and_consume_operator(TokenOp::RightParenthesis);
+              let mut first_expr = first_expr;
+              let mut all_comments = associated_comments;
+              all_comments.append(&mut comments);
+              add_preceding_comments(parser, &mut first_expr, all_comments);
               return first_expr;
             }
           }
@@ -1446,7 +1475,18 @@ mod expression_parser {
         MAX_STRUCT_SIZE,
       );
       if expressions_list.expressions.len() == 1 {
-        return expressions_list.expressions.pop().unwrap();
+        // A parenthesized expression: its parentheses are not kept, their comments are.
+        let mut comments: Vec<Comment> = parser
+          .comments_store
+          .get(expressions_list.start_associated_comments)
+          .iter()
+          .copied()
+          .collect();
+        comments
+          .extend(parser.comments_store.get(expressions_list.ending_associated_comments).iter().copied());
+        let mut e = expressions_list.expressions.pop().unwrap();
+        add_preceding_comments(parser, &mut e, comments);
+        return e;
       }
       return expr::E::Tuple(
         expr::ExpressionCommon {
@@ -1810,8 +1850,8 @@ mod pattern_parser {
     if let Token(_, TokenContent::Operator(TokenOp::Bar)) = parser.peek() {
       let mut patterns = vec![first_pattern];
       while let Token(_, TokenContent::Operator(TokenOp::Bar)) = parser.peek() {
-        drop(parser.consume());
-        let next_pattern = parse_single_matching_pattern(parser, Vec::new());
+        let bar_comments = parser.consume();
+        let next_pattern = parse_single_matching_pattern(parser, bar_comments);
         patterns.push(next_pattern);
       }
       let location = patterns.first().unwrap().loc().union(patterns.last().unwrap().loc());
@@ -1901,7 +1941,7 @@ mod pattern_parser {
         associated_comments: parser.comments_store.create_comment_reference(starting_comments),
       };
     };
-    pattern::MatchingPattern::Id(parser.parse_lower_id(), ())
+    pattern::MatchingPattern::Id(parser.parse_lower_id_with_comments(starting_comments), ())
   }
 
   fn parse_tuple_pattern(parser: &mut super::SourceParser) -> pattern::TuplePattern<()> {
@@ -2039,7 +2079,7 @@ mod type_parser {
       }
       TokenContent::UpperId(name) => {
         associated_comments.append(&mut parser.consume());
-        let associated_comments = parser.comments_store.create_comment_reference(Vec::new());
+        let associated_comments = parser.comments_store.create_comment_reference(associated_comments);
         let id_annot =
           parse_identifier_annot(parser, Id { loc: peeked.0, associated_comments, name });
         if id_annot.type_arguments.is_none() && parser.available_tparams.contains(&id_annot.id.name)
@@ -2196,8 +2236,7 @@ mod utils {
   ) -> CommentReference {
     match parser.comments_store.get_mut(associated_comments) {
       CommentsNode::NoComment => {
-        parser.comments_store.create_comment_reference(additional_preceding_comments);
-        associated_comments
+        parser.comments_store.create_comment_reference(additional_preceding_comments)
       }
       CommentsNode::Comments(existing_comments) => {
         additional_preceding_comments.append(existing_comments);
